@@ -323,6 +323,15 @@ static void do_wide()
   j_bytes("txt", (const unsigned char*)(const char*)txt, (long)txt.length());
   j_bytes("mtxt", (const unsigned char*)(const char*)mtxt, (long)mtxt.length());
   put_limbs4("i64", (unsigned long long)cv.toInt64()); put_limbs4("u64", (unsigned long long)cv.toUInt64());
+  // toDouble: every converted integer is an integer-valued double below 2^65; logged exactly as sign + magnitude (5 limbs)
+  double d = cv.toDouble();
+  int dneg = d < 0;
+  double ad = dneg ? -d : d;
+  unsigned __int128 w = ad < 3.6e19 ? (unsigned __int128)ad : 0;
+  j_bool("dneg", dneg); j_bool("dint", ad < 3.6e19 && (double)w == ad);
+  j_arr_begin("dabs");
+  for(int k = 0; k < 5; ++k) j_arr_int((long long)((unsigned long long)(w >> (16 * k)) & 0xffff));
+  j_arr_end();
   j_bool("eq", eq && eq2);
   j_end();
 }
